@@ -114,6 +114,9 @@ class Damage(SubCheck):
                 # before the damage is done, a transaction block on the same object replaces and deletes items (file-backed ones
                 # among them) and raises: the contents are as before, and check() must see them that way
                 'aborted_block': st.booleans(),
+                # the n-th removal of a file or directory that check(fix=True) attempts fails once with an I/O error (0 = none).
+                # Either the repair run raises, or - if it returns normally - the cache is repaired all the same.
+                'repair_fault': st.sampled_from([0, 0, 0, 1, 2, 3]),
             }
         )
 
@@ -284,8 +287,48 @@ class Damage(SubCheck):
                         keep.add(os.path.normpath(fn))
                 surviving[root] = keep
             allowed_fix = {root: dirs_without_files_below(root, surviving[root]) for root in roots}
-            msgs_fix = run_check(obj, fix=True)
-            self.compare_reports(case, roots, msgs_fix, deleted, resized, strays, count_damaged, size_damaged, fix=True, desc=desc, allowed_dirs=allowed_fix)
+            faulted = False
+            if case.get('repair_fault'):
+                import errno
+
+                from ..conc import get_seams
+                from ..seams import Controller
+
+                seams = get_seams(env)
+
+                class FailRemoval(Controller):
+                    n = 0
+                    fired = False
+
+                    def event(self_, kind, label, con=None):
+                        if kind in ('remove', 'rmdir', 'removedirs') and not self_.fired:
+                            self_.n += 1
+                            if self_.n == case['repair_fault']:
+                                self_.fired = True
+                                raise OSError(errno.EIO, 'Input/output error')
+
+                ctl = FailRemoval()
+                seams.ctl = ctl
+                try:
+                    first = None
+                    try:
+                        first = run_check(obj, fix=True)
+                        raised = False
+                    except OSError:
+                        raised = True
+                finally:
+                    seams.ctl = Controller()
+                faulted = ctl.fired
+                if faulted and not raised:
+                    left = run_check(obj)
+                    if left:
+                        raise Violation('C17/repair-error-swallowed', 'a removal failed during check(fix=True) (I/O error at removal %d), the call returned normally, and a second check() reports %s\n%s' % (case['repair_fault'], short(left, 400), desc))
+            if case.get('repair_fault') and not faulted:
+                msgs_fix = first  # (fewer removals than the fault's ordinal: that was an ordinary, complete repair run)
+            else:
+                msgs_fix = run_check(obj, fix=True)
+            if not faulted:  # (after an interrupted repair run the second one has less left to report)
+                self.compare_reports(case, roots, msgs_fix, deleted, resized, strays, count_damaged, size_damaged, fix=True, desc=desc, allowed_dirs=allowed_fix)
             # ---- convergence ---------------------------------------------------------------------------
             msgs2 = run_check(obj)
             if msgs2:
